@@ -151,3 +151,4 @@ int vsnprintf(char* buf, size_t cap, const char* fmt, va_list ap)
 int snprintf(char* buf, size_t cap, const char* fmt, ...) { va_list ap; va_start(ap, fmt); int r = vsnprintf(buf, cap, fmt, ap); va_end(ap); return r; }
 int sprintf(char* buf, const char* fmt, ...) { va_list ap; va_start(ap, fmt); int r = vsnprintf(buf, (size_t)1 << 30, fmt, ap); va_end(ap); return r; }
 int vsprintf(char* buf, const char* fmt, va_list ap) { return vsnprintf(buf, (size_t)1 << 30, fmt, ap); }
+size_t wcslen(const int* s) { size_t n = 0; while (s[n]) n++; return n; }
